@@ -60,7 +60,8 @@ static void varintBitstreamSet(vbits *const dst, const size_t startBitOffset,
 
     /* This assert triggers if your 'val' is too big to be stored
      * using 'bitsPerValue' */
-    valueMask = (~0ULL >> (BITS_PER_SLOT - bitsPerValue));
+    /* 'bitsPerValue' low bits set; ~0ULL is 64 bits wide whatever the slot type */
+    valueMask = (vbitsVal)(~0ULL >> (sizeof(0ULL) * 8 - bitsPerValue));
     assert(0 == (~valueMask & val));
 
     if (lowDataBitPosition >= 0) {
@@ -95,7 +96,8 @@ static vbitsVal varintBitstreamGet(const vbits *const src,
     highDataBitPosition = BITS_PER_SLOT - (startBitOffset % BITS_PER_SLOT);
     lowDataBitPosition = highDataBitPosition - (int32_t)bitsPerValue;
 
-    valueMask = (~0ULL >> (BITS_PER_SLOT - bitsPerValue));
+    /* 'bitsPerValue' low bits set; ~0ULL is 64 bits wide whatever the slot type */
+    valueMask = (vbitsVal)(~0ULL >> (sizeof(0ULL) * 8 - bitsPerValue));
 
     if (lowDataBitPosition >= 0) {
         out = (in[0] >> lowDataBitPosition) & valueMask;
